@@ -494,3 +494,29 @@ def check_handlers(ctx, S, base_rng, cfgs):
     if not want <= set(by):
         ctx.disagree("h:coverage", "the recorded handler calls no longer reach every handler", {"kind": "handler", "job": None},
                      impl=sorted(by), model=sorted(want), spec_violated=False, site="harness/c16_handlers.py")
+
+
+def replay(ctx, S, base_rng, c):
+    """re-runs the recorded case (kind handler | ast | repr) against the current tree; True = still failing"""
+    import json
+
+    n0 = len(ctx.disagreements)
+    if c.get("kind") == "ast":
+        check_ast(ctx, S)
+    elif c.get("kind") == "repr":
+        check_repr(ctx)
+    else:
+        job = c.get("job")
+        if not job:
+            check_ast(ctx, S)
+        else:
+            job = ("history", job[1]) if job[0] == "history" else tuple(job)
+            if job[0] == "direct":
+                job = (job[0], job[1], job[2], job[3], [None if x is None else (x[0], bytes(x[1])) for x in job[4]], job[5])
+            cfg_lines, calls, updates = collect(S, base_rng, [job])
+            check_calls(ctx, cfg_lines, calls, updates, [job])
+    new = ctx.disagreements[n0:]
+    for d in new[:5]:
+        print(json.dumps(d.to_json(), indent=1, default=str)[:3000])
+    print(f"{len(new)} disagreement(s) between the handlers and Model/VEcuRng on this case")
+    return bool(new)
